@@ -535,3 +535,25 @@ func nodeText(n ast.Node) string {
 	_ = printer.Fprint(&b, fset, n)
 	return b.String()
 }
+
+// genPgpFacts: internal/file/pgp.go gpgSignatureAttributes → Gen/PgpFacts.lean
+//   pgpLifetimeZeroIsNever : the branch that prints an expiry date also requires the lifetime to be non-zero
+func genPgpFacts() {
+	f := parse("internal/file/pgp.go")
+	fd := findFunc(f, "gpgSignatureAttributes")
+	if fd == nil {
+		die("gpgSignatureAttributes not found")
+	}
+	zero := false
+	ast.Inspect(fd.Body, func(n ast.Node) bool {
+		if is, ok := n.(*ast.IfStmt); ok {
+			t := nodeText(is.Cond)
+			if strings.Contains(t, "!= nil") && strings.Contains(t, "!= 0") && strings.Contains(t, "&&") {
+				zero = true
+			}
+		}
+		return true
+	})
+	writeGen("PgpFacts", fmt.Sprintf("def pgpLifetimeZeroIsNever : Bool := %v\n", zero))
+	facts["pgp.lifetimeZeroIsNever"] = zero
+}
